@@ -59,7 +59,7 @@ CORR = {"bystander_debited": corrupt_bystander, "token_supply_changed": corrupt_
 
 
 def run_shard(acc, prop, tier, seed, shard, nshards, **kw):
-    _w.shard(acc, PROP, tier, seed, shard, nshards, factory, WEIGHTS, (12, (120, 220)), (500, (120, 300)), CORR)
+    _w.shard(acc, PROP, tier, seed, shard, nshards, factory, WEIGHTS, (12, (120, 220)), (220, (120, 300)), CORR)
 
 
 def floors(acc, tier):
